@@ -465,9 +465,9 @@ Qed.
 (* The synchronous API applied to a user-level operation. *)
 Definition sync_op (fs : FS A) (o : op) : FS A * Z * list N :=
   match o with
-  | Read fd off len => if fs_open A fs fd then fs_read A fs fd off len else (fs, EBADF, [])
-  | Write fd off d => if fs_open A fs fd then let '(fs', z) := fs_write A fs fd off d in (fs', z, []) else (fs, EBADF, [])
-  | Fsync fd => if fs_open A fs fd then let '(fs', z) := fs_fsync A fs fd in (fs', z, []) else (fs, EBADF, [])
+  | Read fd off len => if fs_ok A fs fd URead then fs_read A fs fd off len else (fs, EBADF, [])
+  | Write fd off d => if fs_ok A fs fd UWrite then let '(fs', z) := fs_write A fs fd off d in (fs', z, []) else (fs, EBADF, [])
+  | Fsync fd => if fs_ok A fs fd USync then let '(fs', z) := fs_fsync A fs fd in (fs', z, []) else (fs, EBADF, [])
   | Cancel _ => (fs, 0%Z, [])
   end.
 
